@@ -80,6 +80,18 @@ def check_config(ctx: Ctx, dtype):
     if tiny and dtype == torch.float32 and (scale < Fr(1, 1000)):
         scale = Fr(1, 1000)          # (squares of entries below ~1e-19 leave single precision's normal range: runtime, not logic)
     J, d = m_unit(rng, m, n, scale=scale)
+    if m >= 2 and n >= 2 and not tiny and rng.random() < 0.25:
+        # two NEARLY PARALLEL rows (angle 1e-2 … 1e-4, exact rational unit vectors by stereographic projection of two close
+        # points): the unit rows have condition number up to 1e4 — pinv(U) loses cond(U) digits, anything that forms U Uᵀ
+        # loses cond(U)² of them
+        t = [Fr(rng.randint(-4, 4), rng.choice([1, 2, 3])) for _ in range(n - 1)]
+        t2 = list(t)
+        t2[0] += Fr(1, 10 ** rng.choice([2, 3, 4]))
+        for idx, tt in ((0, t), (1, t2)):
+            s_ = sum(x * x for x in tt)
+            u_ = [2 * x / (1 + s_) for x in tt] + [(s_ - 1) / (1 + s_)]
+            J[idx] = [d[idx] * x for x in u_]
+        ctx.count("config_nearly_parallel_rows")
     for i in tiny:
         # a gradient of norm ~1e-13..1e-17 is still a direction: its cosine must come out like the others'
         k = rng.choice([40, 50, 60]) if dtype == torch.float64 else rng.choice([40, 50])
@@ -96,7 +108,10 @@ def check_config(ctx: Ctx, dtype):
     U = [[v / d[i] for v in J[i]] for i in range(m)]
     kappa = cond(gram(U))
     uu = ulp(dtype)
-    if C_TOL * uu * kappa * m > 1e-2:
+    # the pseudo-inverse of the UNIT rows loses cond(U) = sqrt(kappa) digits (measured on the unchanged tree: error <= 2.4 ulp
+    # sqrt(kappa) m n over 6 seeds): allowance 64 ulp sqrt(kappa) m n
+    rk = kappa ** 0.5
+    if 64 * uu * rk * m * n > 1e-2:
         ctx.count("config_skipped_ill_conditioned")
         return
     Jt = to_tensor(J, dtype)
@@ -116,12 +131,15 @@ def check_config(ctx: Ctx, dtype):
         ctx.violation(f"ConFIG raised {x}", rp)
         return
     xs, xm = tensor_to_fr(x), fr_list(rep[1])
-    tol = Fr(C_TOL * uu * kappa * m * n) * max(maxabs(xm), Fr(1, 10 ** 30))
+    tol = Fr(64 * uu * rk * m * n) * max(maxabs(xm), Fr(1, 10 ** 30))
     ctx.count("config_compared")
     ctx.count("config_pref", "default" if pref is None else "given")
     if pt is not None and not torch.equal(pt, torch.tensor([float(v) for v in pref], dtype=dtype)):
         ctx.violation(f"ConFIG modified the preference vector it was given: {pref} became {pt.tolist()}", rp)
         return
+    _k = "config_worst_error_over_ulp_sqrtkappa_mn:" + str(dtype)[6:]
+    ctx.cov[_k] = max(ctx.cov.get(_k, 0.0), float(maxdiff(xs, xm) / (Fr(uu * kappa ** 0.5 * m * n) * max(maxabs(xm), Fr(1, 10 ** 30)))))
+    ctx.cov["config_max_sqrt_kappa:" + str(dtype)[6:]] = max(ctx.cov.get("config_max_sqrt_kappa:" + str(dtype)[6:], 0.0), kappa ** 0.5)
     if maxdiff(xs, xm) > tol:
         ctx.violation(f"ConFIG(pref={pref}) = {[float(v) for v in xs]} differs from the exact conflict-free vector "
                       f"{[float(v) for v in xm]} (tolerance {float(tol):.3e})", rp)
@@ -131,7 +149,7 @@ def check_config(ctx: Ctx, dtype):
     if nx2 > 0:
         cos_over_w = [dotf(U[i], xs) / w[i] for i in range(m)]       # = |x| * cos_i / w_i : must be constant
         sc = max(maxabs(cos_over_w), Fr(1, 10 ** 30))
-        if max(cos_over_w) - min(cos_over_w) > Fr(C_TOL * uu * kappa * m * 8) * sc or min(cos_over_w) <= 0:
+        if max(cos_over_w) - min(cos_over_w) > Fr(C_TOL * uu * rk * m * 8) * sc or min(cos_over_w) <= 0:
             ctx.violation(f"ConFIG: cosines to the rows are not positive and proportional to the preference weights: "
                           f"{[float(v) for v in cos_over_w]}", rp)
 
